@@ -68,8 +68,10 @@ def check_argmax(rep, pdb, fn, key, want_lo, want_hi, row_pos, col_term, want_id
         rep.bad("argmax/%s" % key, rule_a, fn["body"], "found %d arg-max loops" % len(ams), where=loc(fn["body"]))
         return None
     am = ams[0]
-    ok = am.orient_ok and am.best_gets_cur and (not want_idx or (am.idx_var is not None and am.idx_val == am.var)) and am.magnitude_ok
-    rep.add("argmax/%s" % key, rule_a + "; candidates are magnitudes", ok, am.ifnode, am.detail)
+    cond_above = [a for a in ancestors(am.loop) if a.get("k") in ("If", "Match")]
+    ok = am.orient_ok and am.best_gets_cur and (not want_idx or (am.idx_var is not None and am.idx_val == am.var)) and am.magnitude_ok and not cond_above
+    rep.add("argmax/%s" % key, rule_a + "; candidates are magnitudes; the search is executed unconditionally (no fast path skips it)", ok, am.ifnode,
+            am.detail + ("; the search is skipped under a condition at %s" % loc(cond_above[0]) if cond_above else ""))
     # search range and inspected entry
     cur = _resolve(ctx, am.cur)
     ent = None
@@ -179,7 +181,12 @@ def run(rep, pdb, tier):
             kterm = r_[0] if r_ else None
         where_ = "partial_pivot" if pp is not None else "gauss_with_pivot"
         ok_s = srch is not None and kterm is not None and [ctx.term(a) for a in call_args(srch)] == [P(0), kterm, kterm]
-        rep.add("search-range/partial_pivot", "the column searched and the first row searched are both the elimination index k", ok_s, srch or host["body"],
+        # the pivot step is taken at every elimination step: neither the search nor the call of partial_pivot is conditional
+        gw_ = pdb.fn("%s::gauss_with_pivot" % M)
+        ppcalls = [n for n in walk(gw_["body"]) if n.get("k") == "MethodCall" and callee_path(n) == "%s::partial_pivot" % M] if gw_ is not None and pp is not None else []
+        cond_ = [a_ for n_ in ([srch] if srch is not None else []) + ppcalls for a_ in ancestors(n_) if a_.get("k") in ("If", "Match")]
+        ok_s = ok_s and not cond_
+        rep.add("search-range/partial_pivot", "the column searched and the first row searched are both the elimination index k, and the pivot step is unconditional", ok_s, srch or host["body"],
                 "in %s: max_abs_in_column args=%s" % (where_, [show(ctx.term(a), ctx) for a in call_args(srch)] if srch else None))
         ok_x = sw is not None and xs is not None and srch is not None
         det = ""
